@@ -109,6 +109,19 @@ def run(ctx):
         jobs.append({'op': 'neg', 'a': {'q': qtext(rng.choice([2.0, -4.5, 0.0]), d)}, 'b': {'n': 0}, 'dims': (d, None)})
         jobs.append({'op': 'abs', 'a': {'q': qtext(rng.choice([2.0, -4.5, 0.0]), d)}, 'b': {'n': 0}, 'dims': (d, None)})
         jobs.append({'op': 'pow', 'a': {'n': 2}, 'b': {'q': qtext(2.0, d)}, 'dims': (None, d)})
+    # magnitudes that are tiny in SI or differ only in the ninth digit: the operators act on the magnitudes themselves, not on
+    # magnitudes "close enough" (batch 12: == through np.isclose with its default absolute tolerance)
+    for d in DIMS:
+        for (x, y) in (('0.000000001', '0.000000003'), ('0.000000001', '0.0'), ('0.0', '0.000000002'), ('1.0', '1.000000001'),
+                       ('(-0.000000004)', '0.000000004'), ('0.000000000001', '0.000000000002')):
+            for op in BINOPS:
+                if op in ('mul', 'div', 'add', 'sub'):
+                    continue          # (sums of nearly equal floats cancel: only the comparisons are asked here)
+                jobs.append({'op': op, 'a': {'q': x + ' ' + d}, 'b': {'q': y + ' ' + d}, 'dims': (d, d + ':tiny')})
+    for ua, ub in (('1.0 nm', '3.0 nm'), ('1.0 eV', '2.0 eV'), ('1.0 ns', '1.0 ps'), ('2.0 ug', '2.0 ng'), ('1.0 nm', '0.000000001 m')):
+        for op in BINOPS:
+            if op not in ('mul', 'div', 'add', 'sub'):
+                jobs.append({'op': op, 'a': {'q': ua}, 'b': {'q': ub}, 'dims': (ua, ub)})
     # unit strings that differ only by white space but not in meaning (metre second / millisecond ...), same number in front, one after the
     # other in one process: what a string evaluates to must not depend on what was evaluated before
     for ua, ub in (('ms', 'm s'), ('m s', 'ms'), ('min', 'm in'), ('m in', 'min'), ('mmol', 'm mol'), ('m mol', 'mmol'), ('mm', 'm m'), ('m m', 'mm'),
@@ -121,6 +134,7 @@ def run(ctx):
         for op in ('eq', 'ne', 'lt', 'gt'):
             arr_jobs.append({'op': op, 'a': {'arr': [1.0, -2.0, 0.5], 'u': d}, 'b': {'arr': [1.0, 3.0, 0.25], 'u': d}, 'dims': (d, d)})
             arr_jobs.append({'op': op, 'a': {'arr': [1.0, 2.0, 0.5], 'u': d}, 'b': {'q': qtext(2.0, d)}, 'dims': (d, d)})
+            arr_jobs.append({'op': op, 'a': {'arr': [1e-9, 2e-9, 0.0, 1.0], 'u': d}, 'b': {'arr': [3e-9, 2e-9, 1e-9, 1.000000001], 'u': d}, 'dims': (d, d)})
     for da, db in itertools.product(DIMS[:9], DIMS[:9]):
         op = rng.choice(['add', 'sub', 'lt', 'le', 'ge', 'eq', 'ne', 'mul', 'div'])
         arr_jobs.append({'op': op, 'a': {'arr': [1.0, -2.0, 0.5], 'u': da}, 'b': {'arr': [1.0, 3.0, 0.25], 'u': db}, 'dims': (da, db)})
